@@ -65,6 +65,11 @@ class Interproc:
             self.cyclic |= set(comp)
         self.compute_mod()
         self.watch = None
+        self.nowrap = None
+        self.establishers = {}         # body id -> clause names it establishes unconditionally ({true} f {clause}); assumed at call sites
+        self.entry_assume = None       # fn(body) -> {clause name: [(a, b, c)]} contracts over parameter terms (see analyse)
+        self.clause_results = {}
+        self.invariants = []
         self.closure_checked = set()   # closure bodies whose exports were checked at a consuming call
 
     # ------------------------------------------------------------------ mod summaries
@@ -349,6 +354,8 @@ class Interproc:
         an = Analyzer(self.f, interproc=self)
         an.closure_seeds = self.an.closure_seeds
         an.watch = self.watch
+        an.invariants = self.invariants
+        an.nowrap = self.nowrap
         res = an.analyze(b)
         absdom.MAX_PARAM = 0
         written = None
@@ -357,9 +364,36 @@ class Interproc:
         self.results[bid] = res
         s.exports = self.make_exports(b, res, written)
         s.ret = self.make_ret(b, an, res)
+        s.cond = None
+        s.clauses = None
+        if self.entry_assume is not None:
+            clauses = self.entry_assume(b)
+            if clauses:
+                # contract per clause:  {clause} body {clause}.  Callers may assume a clause after the call whenever they
+                # prove it before the call; whether this body honours its contract is checked by the rule that set
+                # entry_assume, from clause_results (each violation is thus reported once, at its origin).
+                s.clauses = clauses
+                s.analysed = True
+                self.sum[bid] = s          # recursive calls see the contract
+                self.clause_results[bid] = {}
+                for name, cons in clauses.items():
+                    st0 = State()
+                    if name not in self.establishers.get(bid, ()):
+                        for con in cons:
+                            st0.add_le(*con)
+                    an2 = Analyzer(self.f, interproc=self)
+                    an2.invariants = self.invariants
+                    an2.nowrap = self.nowrap
+                    absdom.MAX_PARAM = b.argc
+                    res2 = an2.analyze(b, entry=st0, collect=False)
+                    absdom.MAX_PARAM = 0
+                    self.clause_results[bid][name] = res2
         s.analysed = True
         self.sum[bid] = s
         return s
+
+    def _term_type_range(self, an, b, t):
+        return (None, None)
 
     # -- liftability
     def _param_term_ok(self, b, t, written):
@@ -431,8 +465,10 @@ class Interproc:
             return None
         tix0 = b.locals[0]["t"]
         ty0 = self.f.types[tix0]
-        ret = {"iv": None, "alias": "?", "ref": "?", "opt": "?", "rels": None, "fields": None}
+        ret = {"iv": None, "alias": "?", "ref": "?", "opt": "?", "rels": None, "fields": None, "exit_iv": None, "exit_rel": None}
         first = True
+        ex = self.exit_facts(b, res)
+        ret["exit_iv"], ret["exit_rel"] = ex
         for bi, st in res.ret_states:
             v = st.sym.get((0, ()))
             # numeric
@@ -519,6 +555,59 @@ class Interproc:
                     ret["fields"] = merged
             first = False
         return ret
+
+    def exit_facts(self, b, res):
+        """(iv, rel) facts that hold at every return about the places (reachable from reference parameters) the body wrote"""
+        ex_iv = None
+        ex_rel = None
+        for bi, st in res.ret_states:
+            def prooted(t):
+                return isinstance(t[1], int) and 1 <= t[1] <= b.argc and t[2][:1] == ("*",)
+
+            def written(t):
+                pl = term_place(t)
+                return any(_written_hits(w, pl) for w in st.dirty)
+            civ = {}
+            for t, i in st.iv.items():
+                if prooted(t) and written(t):
+                    civ[t] = i
+            for p, v in st.sym.items():
+                if v[0] == "n" and v[1] is None and isinstance(p[0], int) and 1 <= p[0] <= b.argc and p[1][:1] == ("*",):
+                    t = ("v", p[0], p[1])
+                    if written(t):
+                        civ[t] = (v[2], v[2])
+            crel = {}
+            cands = set()
+            for t in st.iv:
+                if prooted(t):
+                    cands.add(t)
+            for (x, y) in st.rel:
+                for t in (x, y):
+                    if prooted(t):
+                        cands.add(t)
+            for p, v in st.sym.items():
+                if v[0] == "n" and v[1] is not None and prooted(v[1]):
+                    cands.add(v[1])
+            wr = [t for t in cands if written(t)]
+            for x in wr:
+                for y in cands:
+                    if x == y:
+                        continue
+                    for (a, bb) in ((x, y), (y, x)):
+                        d = st.bound_diff(a, bb, depth=3)
+                        if d is None:
+                            continue
+                        ha = st.iv.get(a, FULL)[1]
+                        lb = st.iv.get(bb, FULL)[0]
+                        if ha is not None and lb is not None and ha - lb <= d:
+                            continue        # nothing beyond the intervals
+                        crel[(a, bb)] = d
+            if ex_iv is None:
+                ex_iv, ex_rel = civ, crel
+            else:
+                ex_iv = {t: absdom.iv_join(i, civ[t]) for t, i in ex_iv.items() if t in civ}
+                ex_rel = {k: max(c, crel[k]) for k, c in ex_rel.items() if k in crel}
+        return {t: i for t, i in (ex_iv or {}).items() if i != FULL}, (ex_rel or {})
 
     def _num_leaves(self, tix, prefix=(), depth=0):
         T = self.f.types
@@ -701,6 +790,20 @@ class Interproc:
             if self.f.bodies[cid].kind not in ("fn", "method", "closure"):
                 continue
             sums.append((cid, self.summary(cid)))
+        # 0. which of the callee's contract clauses hold before the call? (they may be assumed afterwards)
+        held = []
+        if len(sums) == 1 and sums[0][1] is not None and getattr(sums[0][1], "clauses", None):
+            for name, cons in sums[0][1].clauses.items():
+                inst = []
+                ok = True
+                for (a, bb, c) in cons:
+                    a2, b2 = self.instantiate_val(an, ctx, a), self.instantiate_val(an, ctx, bb)
+                    if a2 is None or b2 is None or not st.prove_le(a2, b2, c):
+                        ok = False
+                        break
+                    inst.append((a, bb, c))
+                if ok or name in self.establishers.get(sums[0][0], ()):
+                    held.append(list(cons))
         # 1. lifted preconditions (checked in the pre-call state)
         post = []
         for cid, s in sums:
@@ -744,10 +847,29 @@ class Interproc:
                     st.kill_under(pl, m.names)
         for lf, lift, cond in post:
             self.assume_lifted(an, ctx, lf, lift, cond)
+        if len(sums) == 1 and sums[0][1] is not None and sums[0][1].ret is not None:
+            self.apply_exit(an, ctx, sums[0][1].ret)
+        for inst in held:
+            # re-instantiate after the call's effects (the argument places are the same, their contents were forgotten)
+            for (a, bb, c) in inst:
+                a2, b2 = self.instantiate_val(an, ctx, a), self.instantiate_val(an, ctx, bb)
+                if a2 is not None and b2 is not None:
+                    st.add_le(a2, b2, c)
         # 3. return value
         if len(sums) == 1 and sums[0][1] is not None and sums[0][1].ret is not None:
             return self.apply_ret(an, ctx, sums[0][1].ret)
         return None
+
+    def apply_exit(self, an, ctx, ret):
+        st = ctx.st
+        for t, i in (ret.get("exit_iv") or {}).items():
+            w = self.instantiate_term(an, ctx, t)
+            if w is not None and w[0] == "n" and w[1] is not None:
+                st.set_iv(w[1], None if i[0] is None else i[0] - w[2], None if i[1] is None else i[1] - w[2])
+        for (x, y), c in (ret.get("exit_rel") or {}).items():
+            a, b = self.instantiate_term(an, ctx, x), self.instantiate_term(an, ctx, y)
+            if a is not None and b is not None and a[0] == "n" and b[0] == "n":
+                st.add_le(a, b, c)
 
     def apply_ret(self, an, ctx, ret):
         st = ctx.st
@@ -771,6 +893,10 @@ class Interproc:
             if al not in (None, "?"):
                 w = self.instantiate_val(an, ctx, al)
                 if w is not None:
+                    i = ret.get("iv")
+                    if i and w[0] == "n" and w[1] is not None:
+                        # the callee's view of the value's range (type range, field invariants) also holds for the alias
+                        st.set_iv(w[1], None if i[0] is None else i[0] - w[2], None if i[1] is None else i[1] - w[2])
                     return w
             i = ret.get("iv") or FULL
             st.kill(d, whole_local=not d[1])
